@@ -176,3 +176,6 @@ def run(prog, rep):
         msgpack_tables = None
     if msgpack_tables is not None:
         msgpack_tables.check_mismatch_protocol(prog, rep)
+        rep.rule('R5.5', 'the skip primitive (SkipValueImpl, both readers) advances by exactly one value for every first byte: '
+                         '1 + length-field + payload bytes and count (x2 for maps) nested values', floor=512)
+        msgpack_tables.check_skip_extent(prog, rep, 'R5.5')
